@@ -66,7 +66,8 @@ type worker struct {
 	tGen, tBin          *core.BuildTarget
 	cfg                 [2]*core.Configuration
 	c                   ctl
-	early               int // conc: index of the pausing segment in which a thread ran to completion instead (-1 none)
+	prepKey, tmpl       string // the prepared cache state kept as a template
+	early               int    // conc: index of the pausing segment in which a thread ran to completion instead (-1 none)
 }
 
 // ctl is the per-worker plan consulted by vos.Hook.
@@ -153,7 +154,9 @@ func newWorker(i int) *worker {
 		gen:       filepath.Join(root, "plz-out/gen", pkg),
 		bin:       filepath.Join(root, "plz-out/bin", pkg),
 		cacheRoot: filepath.Join(root, "cache", pkg),
+		tmpl:      filepath.Join(root, "tmpl", pkg),
 	}
+	must(os.MkdirAll(filepath.Join(root, "tmpl"), 0o755))
 	w.tGen = core.NewBuildTarget(core.NewBuildLabel(pkg, "t"))
 	w.tBin = core.NewBuildTarget(core.NewBuildLabel(pkg, "t"))
 	w.tBin.IsBinary = true
@@ -331,10 +334,44 @@ func (w *worker) retrieve(c Case, t *core.BuildTarget, dest string, k []byte) (b
 	return hit, got
 }
 
+// cloneTree reproduces the tree at from under to: directories and symlinks are recreated, files hard-linked (nothing in
+// the code under test writes a cache file in place, and the entry of pre=same shares its inodes with the sources anyway).
+func cloneTree(from, to string) {
+	fi, err := os.Lstat(from)
+	must(err)
+	switch {
+	case fi.Mode()&os.ModeSymlink != 0:
+		t, err := os.Readlink(from)
+		must(err)
+		must(os.Symlink(t, to))
+	case fi.IsDir():
+		must(os.Mkdir(to, 0o755))
+		es, err := os.ReadDir(from)
+		must(err)
+		for _, e := range es {
+			cloneTree(filepath.Join(from, e.Name()), filepath.Join(to, e.Name()))
+		}
+	default:
+		must(os.Link(from, to))
+	}
+}
+
 // prepare brings the cache directory into the state before the Store under test and the source tree into place.
+// The state is built once per (tree, declaration, compression, pre) with real Stores and then cloned for every run.
 func (w *worker) prepare(c Case) {
 	w.c.mode = mPass
 	must(os.RemoveAll(w.cacheRoot))
+	pk := fmt.Sprintf("%p|%s|%v|%s", c.Tree, c.Decl, c.Compress, c.Pre)
+	if w.prepKey == pk {
+		cloneTree(w.tmpl, w.cacheRoot)
+		return
+	}
+	defer func() {
+		must(os.RemoveAll(w.tmpl))
+		must(os.MkdirAll(w.cacheRoot, 0o755))
+		cloneTree(w.cacheRoot, w.tmpl)
+		w.prepKey = pk
+	}()
 	if c.Pre == "same" || c.Pre == "different" {
 		src := c.Tree
 		if c.Pre == "different" {
@@ -409,7 +446,9 @@ func (w *worker) runCase(c Case, dry []string) (class, detail string, got *tree.
 	pfx := "dircache:" + c.Mode + ":" + compName(c.Compress) + ":"
 	switch c.Mode {
 	case "faithful":
+		w.prepKey = ""
 		w.prepare(c)
+		w.prepKey = ""
 		w.newCache(c.Compress).Store(w.tGen, key, outs)
 		hit, got := w.retrieve(c, w.tGen, w.gen, key) // into the emptied directory the outputs came from
 		if !hit {
@@ -628,8 +667,9 @@ func main() {
 
 	sp := tree.Space{Names: []string{"a", "b"}, Contents: []string{"", "x"}, Targets: []string{"a", "../a"}, MaxDepth: 2, MaxEntries: 3}
 	if !r.Quick() {
-		sp = tree.Space{Names: []string{"a", "b", "c"}, Contents: []string{"", "x"}, Targets: []string{"a", "b", "../a"}, MaxDepth: 3, MaxEntries: 4}
+		sp = tree.Space{Names: []string{"a", "b", "c"}, Contents: []string{"", "x"}, Targets: []string{"a", "b", "../a"}, MaxDepth: 3, MaxEntries: 3}
 	}
+	sp2 := tree.Space{Names: []string{"a", "b"}, Contents: []string{"x"}, Targets: []string{"a"}, MaxDepth: 2, MaxEntries: 5} // thorough: the 4- and 5-entry trees of a narrower alphabet
 	if v := os.Getenv("C12_ENTRIES"); v != "" {
 		fmt.Sscan(v, &sp.MaxEntries)
 	}
@@ -639,11 +679,19 @@ func main() {
 			trees = append(trees, t)
 		}
 	}
+	if !r.Quick() {
+		for _, t := range sp2.Dirs() {
+			if t.Entries() >= 4 {
+				trees = append(trees, t)
+			}
+		}
+	}
 	// larger than every buffer involved (bufio 4 KiB, tar 512 B blocks, gzip window), and a deep chain
 	trees = append(trees,
 		tree.Dir(map[string]*tree.Node{"a": tree.File("@70000z1")}),
-		tree.Dir(map[string]*tree.Node{"a": tree.File("@70000z1"), "b": tree.Dir(map[string]*tree.Node{"a": tree.Dir(map[string]*tree.Node{"a": tree.Dir(nil), "b": tree.Link("../../a")}), "c": tree.File("@5000q")})}),
+		tree.Dir(map[string]*tree.Node{"a": tree.File("@9000z1"), "b": tree.Dir(map[string]*tree.Node{"a": tree.Dir(map[string]*tree.Node{"a": tree.Dir(nil), "b": tree.Link("../../a")}), "c": tree.File("@5000q")})}),
 	)
+	nBig := 2
 
 	// the unit of parallel work is one (tree, decl, compress) group
 	type group struct {
@@ -653,7 +701,12 @@ func main() {
 		idx      int
 	}
 	var groups []group
-	for i, t := range trees {
+	order := append(append([]int{}, len(trees)-2, len(trees)-1), make([]int, len(trees)-2)...) // the two large trees first (they take longest)
+	for i := 0; i < len(trees)-2; i++ {
+		order[i+2] = i
+	}
+	for _, i := range order {
+		t := trees[i]
 		for _, decl := range []string{"top", "leaf"} {
 			if decl == "leaf" && fmt.Sprint(outsOf(t, "leaf")) == fmt.Sprint(outsOf(t, "top")) {
 				continue // identical declaration
@@ -666,7 +719,7 @@ func main() {
 	var mu sync.Mutex
 	found := map[string]*result{}
 	counts := map[string]int{}
-	var next, evals, states, transitions, nontrivial, crashRuns, concRuns, faithRuns int64
+	var next, evals, states, transitions, nontrivial, crashRuns, concRuns, faithRuns, skipped int64
 	var samples lib.Samples
 	record := func(c Case, idx int, class, detail string, got *tree.Node) {
 		atomic.AddInt64(&evals, 1)
@@ -697,17 +750,23 @@ func main() {
 				}
 				g := groups[gi]
 				// (a)
+				unfaithful := false
 				for _, mode := range []string{"faithful", "never-stored"} {
 					c := Case{Mode: mode, Tree: g.t, Decl: g.decl, Compress: g.compress, Pre: "none"}
 					class, detail, got := w.runCase(c, nil)
 					record(c, g.idx, class, detail, got)
 					atomic.AddInt64(&faithRuns, 1)
+					unfaithful = unfaithful || class != ""
+				}
+				if unfaithful {
+					atomic.AddInt64(&skipped, 1)
+					continue // a tree that does not even round-trip cannot be judged under crashes / interleavings
 				}
 				if g.t.Entries() > 1 {
 					atomic.AddInt64(&nontrivial, 1)
 				}
 				pres := []string{"none", "same"}
-				if r.Quick() && g.compress && g.t.Entries() > 2 && g.idx < len(trees)-2 {
+				if r.Quick() && g.compress && g.t.Entries() > 2 && g.idx < len(trees)-nBig {
 					// a compressed Store is "create one tarball, rename it" whatever the tree: the quick tier explores its
 					// crash states and interleavings on the trees of <=2 entries and the two large ones only
 					pres = nil
@@ -747,6 +806,9 @@ func main() {
 					// (c)
 					for _, pat := range concPatterns {
 						two := len(pat) == 4
+						if two && g.idx >= len(trees)-nBig {
+							continue // the two-pause patterns are not run on the two large trees
+						}
 						for a := 1; a <= 200; a++ {
 							stopOuter := false
 							for b := 1; b <= 200; b++ {
@@ -811,8 +873,8 @@ func main() {
 		Transitions:        int(transitions),
 		TracesValidated:    int(crashRuns + concRuns),
 		Exhaustive:         int(next) > len(groups),
-		Extra: map[string]any{"trees": len(trees), "groups": len(groups), "faithful_runs": faithRuns, "crash_states": crashRuns, "interleavings": concRuns,
-			"space": fmt.Sprintf("names %q contents %q symlink targets %q depth<=%d entries<=%d + a 70 KB file + a 3-deep tree with a 70 KB and a 5 KB file; declarations top|leaf; compressed and not; pre-existing entry none|same|different; patterns %q",
+		Extra: map[string]any{"trees": len(trees), "groups": len(groups), "faithful_runs": faithRuns, "crash_states": crashRuns, "groups_skipped_because_the_plain_round_trip_failed": skipped, "interleavings": concRuns,
+			"space": fmt.Sprintf("names %q contents %q symlink targets %q depth<=%d entries<=%d (thorough: + the 4..5-entry trees over names {a,b} content x target a depth 2) + a 70 KB file + a 3-deep tree with a 9 KB and a 5 KB file (large trees: one-pause patterns only); declarations top|leaf; compressed and not; pre-existing entry none|same|different; patterns %q",
 				sp.Names, sp.Contents, sp.Targets, sp.MaxDepth, sp.MaxEntries, concPatterns)},
 	})
 }
